@@ -496,6 +496,14 @@ func (e *SpecEnv) Eval(x SExpr) Val {
 		c := e.boolTerm(e.Eval(n.C))
 		return vc.iteVal(c, e.Eval(n.A), e.Eval(n.B))
 	case SUn:
+		if n.Op == "&" {
+			if id, ok := n.X.(SIdent); ok && e.f != nil {
+				if v, ok := e.f.lookupAddr(id.Name, e.at); ok {
+					return v
+				}
+			}
+			e.fail("cannot take the address of %s", specString(n.X))
+		}
 		v := e.Eval(n.X)
 		switch n.Op {
 		case "!":
@@ -725,6 +733,45 @@ func (e *SpecEnv) call(n SCall) Val {
 	case "ref":
 		v := e.Eval(n.Args[0])
 		return Val{K: KInt, T: e.term(v)}
+	case "allocatedAt":
+		// allocatedAt(N, x): x was already allocated when the current iteration of loop N started
+		nl, ok := n.Args[0].(SIntLit)
+		if !ok || e.f == nil {
+			e.fail("allocatedAt(<loop ordinal>, x)")
+		}
+		xv := e.Eval(n.Args[1])
+		var ord int
+		fmt.Sscanf(nl.V, "%d", &ord)
+		for _, li := range e.f.loops {
+			if li.ord == ord && li.headSt != nil {
+				ab, ok := li.headSt.H["G.alloc"]
+				if !ok {
+					ab = vc.heapInit("G.alloc", ArrSort(SInt, SBool))
+				}
+				return Val{K: KBool, T: Select(ab, e.term(xv))}
+			}
+		}
+		e.fail("allocatedAt: loop %d has no explicit frame (loop modifies) or is not active here", ord)
+	case "ptr":
+		// ptr(x, "pkg.Type"): view the reference x as a *pkg.Type
+		xv := e.Eval(n.Args[0])
+		ts, ok := n.Args[1].(SStrLit)
+		if !ok {
+			e.fail("ptr(x, \"Type\")")
+		}
+		t := e.lookupType(ts.V)
+		if t == nil {
+			e.fail("unknown type %q", ts.V)
+		}
+		return Val{K: KPtr, T: e.term(xv), Typ: types.NewPointer(t)}
+	case "inSlice":
+		// inSlice(s, x): x was among the elements of s at its last append (ghost content set)
+		sv := e.Eval(n.Args[0])
+		xv := e.Eval(n.Args[1])
+		if sv.K != KSlice {
+			e.fail("inSlice() needs a slice")
+		}
+		return Val{K: KBool, T: Select(vc.sliceSet(sv), e.term(xv))}
 	case "offset", "arr":
 		v := e.Eval(n.Args[0])
 		if v.K != KSlice {
